@@ -15,7 +15,7 @@ ASSUMPTIONS = [
     "A5 curve constants are valid domain parameters (p, n prime, p >= 3, G of order n); symbolic moduli are positive",
     "A6 asserts and container indexings classified internal hold (each is listed in coverage.internal_assumptions)",
     "A7 the interpreter is not run with -O (asserts are live)",
-    "numerical identities (group law, modular algebra, RFC 6979 byte stream, round-trip equality) are NOT decided; see level_note",
+    "run-time values are NOT decided; formula identities are decided only where a rule says so (ring normal forms: R06.10, R07.7, R02.7, R03.7, R05.7, R14.4); the RFC 6979 byte stream and round-trip equality are decided only as structural agreement",
 ]
 
 
